@@ -59,12 +59,15 @@ class ByNameEnumMappingGenerator(BaseEnumMappingGenerator):
 
     def _generate_mapping(self, cases: Iterable[EnumT]) -> Mapping[EnumT, str]:
         result = {}
+        # member of enum with str mixin is equal to its value, so it must not be searched among names
+        map_by_member = {id(key): value for key, value in self._map.items() if isinstance(key, Enum)}
+        map_by_name = {key: value for key, value in self._map.items() if not isinstance(key, Enum)}
 
         for case in cases:
-            if case in self._map:
-                mapped = self._map[case]
-            elif case.name in self._map:
-                mapped = self._map[case.name]
+            if id(case) in map_by_member:
+                mapped = map_by_member[id(case)]
+            elif case.name in map_by_name:
+                mapped = map_by_name[case.name]
             elif self._name_style:
                 mapped = convert_snake_style(case.name, self._name_style)
             else:
